@@ -143,10 +143,15 @@ def plan(tier, seed):
         for l in sorted(ls):
             for rep in range(1 if tier == 'quick' else 2):
                 cases.append({'variant': v, 'len': l, 'sched': seed * 7919 + l + rep, 'heavy': rep == 1 or l % 3 == 0, 'start_error': (l + rep) % 5 == 1})
-    nsh = 64 if tier == 'quick' else 256
+        if tier == 'thorough':
+            # the quantifier says "all firmware lengths from 0 to the flash size": every length of every variant, one schedule each
+            for l in range(0, size + 1):
+                if l not in ls:
+                    cases.append({'variant': v, 'len': l, 'sched': seed * 104729 + l, 'heavy': l % 11 == 0, 'start_error': l % 13 == 5})
+    nsh = 64 if tier == 'quick' else 1024
     cases.sort(key=lambda c: -c['len'])
     shards = [{'cases': cases[i::nsh]} for i in range(nsh)]
-    return {'shards': shards, 'budget_s': 300 if tier == 'quick' else 3000, 'extra_cov': {'runs_planned': len(cases)},
+    return {'shards': shards, 'budget_s': 300 if tier == 'quick' else 5400, 'extra_cov': {'runs_planned': len(cases)},
             'exhaustive': False}
 
 
